@@ -74,14 +74,18 @@ Link(cfg, target, d, d0, out, k, log) ==
     IN  IF ch.on /\ sch = 1
         THEN LET nd  == [tag |-> ch.tag, chain |-> ch.prop, cond |-> 1, condf |-> 1]
                  req == Request(cfg, target, out, ch, nd, log1)
+                 \* the requesting entry action goes on after event() returned and must still
+                 \* see the data of its own event
+                 Aft(lg) == lg \o <<Rec("after", target, IF cfg.enter[target] \in {1, 3} THEN 0 ELSE 1,
+                                         seen, 0, 0, d.tag)>>
              IN  IF ~req.acc
                  THEN (IF ch.double    \* the same request again: rejected again, logged again
-                       THEN Finish(cfg, target, out, Request(cfg, target, out, ch, nd, req.log).log)
-                       ELSE Finish(cfg, target, out, req.log))
+                       THEN Finish(cfg, target, out, Aft(Request(cfg, target, out, ch, nd, req.log).log))
+                       ELSE Finish(cfg, target, out, Aft(req.log)))
                  ELSE IF ch.double THEN Result("error", target, out, req.log)   \* two requests
                  ELSE LET seenx == IF ChainUpdatesCtx THEN nd.tag ELSE d0.tag IN
                       Link(cfg, req.target, nd, d0, out, k + 1,
-                           req.log \o Cbs("exit", cfg.exit[target], target, seenx, nd.tag))
+                           Aft(req.log) \o Cbs("exit", cfg.exit[target], target, seenx, nd.tag))
         ELSE Finish(cfg, target, out, log1)
 
 (* ev = [goto |-> state or 0, e |-> event or 0, d |-> data] *)
@@ -115,7 +119,7 @@ IntermediateInvisible(r) ==
         /\ r.out = r.st
 (* every cond / enter / exit action sees the data of the event that caused it *)
 DataOfCausingEvent(r) ==
-    \A i \in DOMAIN r.log : r.log[i].k \in {"cond", "enter", "exit"} => r.log[i].tag = r.log[i].c
+    \A i \in DOMAIN r.log : r.log[i].k \in {"cond", "enter", "exit", "after"} => r.log[i].tag = r.log[i].c
 (* documented order: exit, on_exit, enter, output, on_enter *)
 Pos(log, k) == IF \E i \in DOMAIN log : log[i].k = k
                THEN CHOOSE i \in DOMAIN log : log[i].k = k /\ \A j \in DOMAIN log : log[j].k = k => i <= j
